@@ -221,7 +221,7 @@ var kinds = []kind{
 }
 
 type ev struct {
-	typ kcache.EventType
+	typ           kcache.EventType
 	ns, name, sel string // source: selector; destination pod: labels; destination service: ignored
 }
 
@@ -237,21 +237,21 @@ type cfg struct {
 }
 
 type inst struct {
-	c        cfg
-	k        kind
-	rv       int
-	readyObs []string
-	joinErr  error
-	census0  []string
-	censusN  [][]string
-	lists    []string // join cache at quiescence, per cycle
-	wants    []string
-	received [][]string
-	readyAt  []string // content read when Ready() was observed, per cycle
-	probeOK  bool
-	finished bool
+	c                  cfg
+	k                  kind
+	rv                 int
+	readyObs           []string
+	joinErr            error
+	census0            []string
+	censusN            [][]string
+	lists              []string // join cache at quiescence, per cycle
+	wants              []string
+	received           [][]string
+	readyAt            []string // content read when Ready() was observed, per cycle
+	probeOK            bool
+	finished           bool
 	srcFinal, dstFinal string
-	doneClosed []bool
+	doneClosed         []bool
 }
 
 func (in *inst) next() string { in.rv++; return fmt.Sprint(in.rv) }
@@ -538,8 +538,8 @@ func scenario(c cfg) runner.Sc {
 
 func Property() runner.Property {
 	return runner.Property{
-		ID:    "C09",
-		Level: "model_checking",
+		ID:           "C09",
+		Level:        "model_checking",
 		QuickBudgetS: 240, ThoroughBudgetS: 3000,
 		Rule: "all eight generated joins and IngressPods over publisher-level base controllers wrapped by the real typed packages; sources that appear, change selector and disappear, destinations in two namespaces with overlapping labels, both bases becoming ready and running their histories concurrently with the join's construction; schedules within d deviations of the default (d=2 quick, 3 thorough); oracle at quiescence: join cache = destination objects selected by at least one current source (reference rule written from the property), join Ready() only observed with both bases ready, join events account for its cache, after Close() the join is done and the census of live library goroutines equals the census before the join was created (repeated create/close cycle), the destination base still delivers to an independent subscriber",
 		Assumptions: []string{
